@@ -40,6 +40,27 @@ pub struct Hooks {
     pub join: fn(a: &mut (dyn FnMut() + Send), b: &mut (dyn FnMut() + Send)),
 }
 
+/// Callbacks for service threads of a manager (installed separately from
+/// [`Hooks`], both are optional)
+pub struct DaemonHooks {
+    /// A service thread of a manager (the background garbage collector)
+    /// announces itself. Returns whether the harness adopts it, i.e., whether
+    /// the thread should use [`daemon_wait()`] instead of its condition
+    /// variable.
+    pub daemon_start: fn(resource: usize) -> bool,
+    /// Modelled wait of an adopted service thread: returns `true` once
+    /// `ready()` holds and the harness scheduled the thread, `false` if the
+    /// harness released the thread (it must behave normally from then on).
+    pub daemon_wait: fn(resource: usize, ready: &(dyn Fn() -> bool + Sync)) -> bool,
+}
+
+static DAEMON_HOOKS: OnceLock<DaemonHooks> = OnceLock::new();
+
+/// Install the callbacks for service threads (once per process)
+pub fn install_daemon_hooks(hooks: DaemonHooks) -> bool {
+    DAEMON_HOOKS.set(hooks).is_ok()
+}
+
 static HOOKS: OnceLock<Hooks> = OnceLock::new();
 
 /// Install the callbacks (once per process)
@@ -76,4 +97,20 @@ pub fn controlled() -> bool {
 /// returns true.
 pub fn join(a: &mut (dyn FnMut() + Send), b: &mut (dyn FnMut() + Send)) {
     (HOOKS.get().expect("no hooks installed").join)(a, b)
+}
+
+/// A service thread of a manager announces itself, see [`DaemonHooks::daemon_start`]
+pub fn daemon_start(resource: usize) -> bool {
+    match DAEMON_HOOKS.get() {
+        Some(h) => (h.daemon_start)(resource),
+        None => false,
+    }
+}
+
+/// Modelled wait of an adopted service thread, see [`DaemonHooks::daemon_wait`]
+pub fn daemon_wait(resource: usize, ready: &(dyn Fn() -> bool + Sync)) -> bool {
+    match DAEMON_HOOKS.get() {
+        Some(h) => (h.daemon_wait)(resource, ready),
+        None => false,
+    }
 }
